@@ -271,6 +271,8 @@ fn min {|@number| }
 # This function produces an exact result when `$base` is exact and `$exponent`
 # is an exact integer. Otherwise it produces an inexact result.
 #
+# Raising exact 0 to a negative exact integer power raises an exception.
+#
 # Examples:
 #
 # ```elvish-transcript
